@@ -55,6 +55,42 @@ func goParse(b []byte) string {
 	return showHeaderGo(&h)
 }
 
+// reparseDiffers: the same Header object (and the same ROM object) parses image bytes `a`, then `b`; the second result must be
+// what a fresh object parses from `b` (a parse carries nothing over from an earlier one). Returns a description or "".
+func reparseDiffers(a, b []byte) string {
+	var h snes.Header
+	if err := h.ReadHeader(bytes.NewReader(a)); err != nil {
+		return ""
+	}
+	if err := h.ReadHeader(bytes.NewReader(b)); err != nil {
+		return ""
+	}
+	if got, want := showHeaderGo(&h), goParse(b); got != want {
+		return "Header.ReadHeader on a reused Header: " + got + " / fresh: " + want
+	}
+	img := make([]byte, 0x8000)
+	copy(img[0x7FB0:], a)
+	rom, err := snes.NewROM("x", img)
+	if err != nil {
+		return ""
+	}
+	copy(img[0x7FB0:], b)
+	if err := rom.ReadHeader(); err != nil {
+		return ""
+	}
+	if got, want := showHeaderGo(&rom.Header), goParse(b); got != want {
+		return "ROM.ReadHeader on a reused ROM: " + got + " / fresh: " + want
+	}
+	orig := append([]byte{}, img...)
+	if err := rom.WriteHeader(); err != nil {
+		return ""
+	}
+	if !bytes.Equal(orig, img) {
+		return "ROM.ReadHeader + WriteHeader after a re-parse changed the image"
+	}
+	return ""
+}
+
 func goSer(b []byte) string {
 	var h snes.Header
 	if err := h.ReadHeader(bytes.NewReader(b)); err != nil {
@@ -273,6 +309,14 @@ func runHeader() {
 			reqs = append(reqs, "hdr parse "+shx)
 			wants = append(wants, goParse(short))
 			rep.Count("header: short input")
+		}
+		if i%3 == 0 {
+			// re-parse on the same objects: an earlier image whose version-deciding bytes differ
+			a := genHeaderBytes(r, rep)
+			if msg := reparseDiffers(a, b); msg != "" {
+				addViolation("parsing depends on an earlier parse by the same object (a fresh object parses the same bytes differently)", fmt.Sprintf("hdr reparse %s then %s", hex.EncodeToString(a), hx), "as a fresh object", msg)
+			}
+			rep.Count("header: re-parse on the same object")
 		}
 		if i%4 == 0 {
 			sz := sizes[r.N(len(sizes))]
